@@ -129,7 +129,7 @@ for name in names:
         topo = mesh(sites, links, spans={l: sp for l in links}, junction=junction)
         run(topo, eq, f'{name}:{sp}:{junction}:{"gain" if gain_mode else "power"}:{"voa_auto" if voa_auto else "stock"}')
 # user settings mixed with missing ones; per-degree targets; delta_p range
-for variant in ('per_degree', 'per_degree_psw', 'user_gain', 'user_delta_p', 'raman', 'delta_power_range', 'eol'):
+for variant in ('per_degree', 'per_degree_psw', 'lumped', 'user_gain', 'user_delta_p', 'raman', 'delta_power_range', 'eol'):
     eq = equipment()
     sites, links = TOPOLOGIES['ring3']
     rp = {'A': {'per_degree_pch_out_db': {'east edfa in roadm A to roadm B': -17.5}}} if variant == 'per_degree' else None
@@ -143,6 +143,10 @@ for variant in ('per_degree', 'per_degree_psw', 'user_gain', 'user_delta_p', 'ra
             if e['uid'] == 'roadm A':
                 e['params'] = {'target_psd_out_mWperGHz': 2.5e-4, 'per_degree_psd_out_mWperSlotWidth': {'fiber (A -> B)-0': 1.8e-4},
                                'per_degree_psd_out_mWperGHz': {'fiber (A -> C)-0': 3.0e-4}}
+    if variant == 'lumped':
+        for e in topo['elements']:
+            if e['uid'] == 'fiber (A -> B)-1':
+                e['params']['lumped_losses'] = [{'position': 20, 'loss': 1.5}, {'position': 45.5, 'loss': 0.5}]
     if variant in ('user_gain', 'user_delta_p'):
         k = 0
         for e in topo['elements']:
